@@ -35,6 +35,8 @@ DECIDED = [
     "C12.8 default modes: get ra, set ff, unset fi, check rf",
     "C12.9 _state_check_chain restricts the inner check to the one object and maps <op>_state/<op>_location",
     "C12.10 every registered backend resolves the eight operations",
+    "C12.11 the object hierarchy is walked components-first (an image-level abort precedes any vm-level effect of the same call)",
+    "C12.12 the per-object loops read only the drilled-down per-object parameters",
 ]
 NOT_DECIDED = ["set-of-names store model over operation sequences", "non-interference between objects at run time"]
 EXHAUSTIVE = True
@@ -387,7 +389,71 @@ def registry(ctx: Ctx, rule: str) -> None:
         raise AnalysisError(f"only {n} registered backends found, expected 8")
 
 
+def iteration_order(ctx: Ctx, rule: str) -> None:
+    """_parametric_object_iteration is a post-order walk: an object's components are yielded before the object itself.
+
+    An abort raised for a component (image) must precede any backend effect on the composite (vm) of the same call; the
+    reverse order lets an aborting call alter the store.  Decided per path through the loop body: every `yield` of the
+    object's own parameters is preceded by the recursive `yield from` whenever the object type is not the last of the chain.
+    """
+    fref = f"{SETUP}:_parametric_object_iteration"
+    loop = the_loop(ctx, fref, ast.For, lambda l: isinstance(l.iter, ast.Call) and ast.unparse(l.iter.func) == "params.objects", "loop over the objects of the current type")
+    ys = [y for y in ast.walk(loop) if isinstance(y, (ast.Yield, ast.YieldFrom))]
+    rec = [y for y in ys if isinstance(y, ast.YieldFrom) and isinstance(y.value, ast.Call) and call_name(y.value) == "_parametric_object_iteration"]
+    own = [y for y in ys if isinstance(y, ast.Yield)]
+    if len(rec) != 1 or len(own) != 1:
+        raise AnalysisError(f"{fref}: expected one recursive `yield from` and one own `yield` in the loop, found {len(rec)}/{len(own)}")
+    ok_args = [ast.unparse(a) for a in rec[0].value.args] == ["obj_params", "composites"] and not rec[0].value.keywords
+    # order along every path of one iteration
+    bad = None
+    n = 0
+    for view in loop_iteration_views(ctx, fref, loop, lambda n_: isinstance(n_, (ast.Yield, ast.YieldFrom))):
+        n += 1
+        seq = []
+        for _i, st in view.stmts():
+            for y in ast.walk(st):
+                if y is rec[0]:
+                    seq.append("components")
+                elif y is own[0]:
+                    seq.append("own")
+        if seq == ["components", "own"] or seq == ["own"]:
+            continue
+        bad = seq
+    # the guard of the recursion: exactly "not the last type of the chain"
+    guard = None
+    for node in ast.walk(loop):
+        if isinstance(node, ast.If) and any(y is rec[0] for y in ast.walk(node)):
+            guard = node
+    ok_guard = guard is not None and norm.equivalent(norm.formula(guard.test), norm.formula(ast.parse("params_obj_type != object_composition[-1]", mode="eval").body)) and not any(y is own[0] for y in ast.walk(guard))
+    ok = bad is None and ok_args and ok_guard and n >= 2
+    ctx.record(rule, "ORDER", fref, "post-order: components (guard: not the last type of states_chain) are yielded before the composite's own parameters, which are yielded unconditionally",
+               ok, {"iteration_paths": n, "bad_sequence": bad, "recursion_args_ok": ok_args, "guard": ast.unparse(guard.test) if guard is not None else None},
+               "" if ok else f"the walk over the object hierarchy is no longer components-first (sequence {bad}, guard ok={ok_guard}, args ok={ok_args}): an abort for an image can come after the vm-level state was already changed")
+
+
+def object_param_provenance(ctx: Ctx, rule: str) -> None:
+    """Inside the per-object loop every parameter is read from the drilled-down per-object view, never from the call's run_params."""
+    ops = ("show", "check", "get", "set", "unset", "push", "pop")
+    for op in ops:
+        fref = f"{SETUP}:{op}_states"
+        fn = ctx.repo.func(fref)
+        ctx.touch(fref)
+        uses = [n_ for n_ in ast.walk(fn.node) if isinstance(n_, ast.Name) and n_.id == "run_params"]
+        loops = [l for l in ast.walk(fn.node) if isinstance(l, ast.For) and isinstance(l.iter, ast.Call) and call_name(l.iter) == "_parametric_object_iteration"]
+        if len(loops) != 1:
+            raise AnalysisError(f"{fref}: expected one loop over _parametric_object_iteration")
+        loop = loops[0]
+        ok_iter = [ast.unparse(a) for a in loop.iter.args] == ["run_params"] and not loop.iter.keywords and isinstance(loop.target, ast.Name)
+        inside = [u for st in loop.body + loop.orelse for u in ast.walk(st) if isinstance(u, ast.Name) and u.id == "run_params"]
+        ok = ok_iter and not inside
+        ctx.record(rule, "PROV", fref, "the loop iterates _parametric_object_iteration(run_params) and its body reads only the per-object parameters", ok,
+                   {"run_params_uses": len(uses), "inside_loop": [u.lineno for u in inside]},
+                   "" if ok else f"{op}_states reads the undrilled run_params inside the per-object loop (line(s) {[u.lineno for u in inside]}): suffixed per-type/per-object settings are ignored")
+
+
 def run(ctx: Ctx) -> None:
+    ctx.call(iteration_order, "11")
+    ctx.call(object_param_provenance, "12")
     ctx.call(op_table, "1", "get")
     ctx.call(op_table, "2", "set")
     ctx.call(op_table, "3", "unset")
@@ -416,6 +482,9 @@ MUTANTS = [
      "                state_backend.set_root(root_params, state_object)\n            elif action_if_root_doesnt_exist == \"r\":", "4"),
     ("check-skip-after-root", SETUP, "        # if the snapshot is not defined skip (leaf tests that are no setup)\n        if not state_params.get(\"check_state\"):",
      "        # if the snapshot is not defined skip (leaf tests that are no setup)\n        if state_params.get(\"check_state\") is None:", "4"),
+    ("iteration-preorder", SETUP, "        if params_obj_type != object_composition[-1]:\n            yield from _parametric_object_iteration(obj_params, composites)\n        # object type parameters don't propagate downwards in the hierarchy\n        obj_type_params = obj_params.object_params(params_obj_type)\n        yield obj_type_params",
+     "        # object type parameters don't propagate downwards in the hierarchy\n        obj_type_params = obj_params.object_params(params_obj_type)\n        yield obj_type_params\n        if params_obj_type != object_composition[-1]:\n            yield from _parametric_object_iteration(obj_params, composites)", "11"),
+    ("check-mode-from-run-params", SETUP, "state_params[\"check_mode\"] = state_params.get(\"check_mode\", \"rf\")", "state_params[\"check_mode\"] = run_params.get(\"check_mode\", \"rf\")", "12"),
     ("get-default-ri", SETUP, "state_params.get(\"get_mode\", \"ra\")", "state_params.get(\"get_mode\", \"ri\")", "1d"),
     ("readonly-images-touched", SETUP, "def get_states(run_params: Params, env: Env = None) -> None:", "def get_states(run_params: Params, env: Env = None) -> None:\n    \"\"\"x\"\"\"", None),
     ("P-letter-order", SETUP, "        elif state_exists and \"r\" == action_if_exists:\n            pass\n        elif state_exists and \"i\" == action_if_exists:\n            logging.warning(\"Ignoring present snapshot for setup\")\n            continue",
